@@ -162,7 +162,8 @@ where
                             } else {
                                 let mut current_param = match current.parse::<u64>() {
                                     Ok(val) => val,
-                                    _ => 0,
+                                    _ if current.is_empty() => 0,
+                                    _ => 9999, // only digits get here: too many of them
                                 };
                                 current_param = u64::min(current_param, 9999);
                                 params.push(current_param as u32);
@@ -286,7 +287,8 @@ where
                             } else {
                                 let mut current_param = match current.parse::<u64>() {
                                     Ok(val) => val,
-                                    _ => 0,
+                                    _ if current.is_empty() => 0,
+                                    _ => 9999, // only digits get here: too many of them
                                 };
                                 current_param = u64::min(current_param, 9999);
                                 params.push(current_param as u32);
